@@ -89,9 +89,10 @@ CODE_SPECS = {
 CODE_SPECS.update(sub_pair('CEv', 'TypeAnnotations', ('type_annotations', 'ta_residual_log', 'type_annotations_visitor')))
 
 
-def staged(pfx, generics, params, args, ev, blocks):
+def staged(pfx, generics, params, args, ev, blocks, opaque_stages=False):
     """spec functions pfx_0 .. pfx_n: the expected log after each block of a replay.  block = (condition or None, [event, ..]) | ('raw', expr using {prev})"""
     out = [f'pub open spec fn {pfx}_0{generics}({params}) -> Seq<{ev}> {{ Seq::empty() }}']
+    op = '#[verifier::opaque] ' if opaque_stages else ''
     for j, b in enumerate(blocks, start=1):
         gn = ('::<' + ', '.join(x.split(':')[0].strip() for x in generics.strip('<>').split(',')) + '>') if generics else ''
         prev = f'{pfx}_{j - 1}{gn}({args})'
@@ -101,7 +102,7 @@ def staged(pfx, generics, params, args, ev, blocks):
             cond, events = b
             chain = prev + ''.join(f'.push({e})' for e in events)
             body = f'if {cond} {{ {chain} }} else {{ {prev} }}' if cond else chain
-        out.append(f'pub open spec fn {pfx}_{j}{generics}({params}) -> Seq<{ev}> {{ {body} }}')
+        out.append(f'{op}pub open spec fn {pfx}_{j}{generics}({params}) -> Seq<{ev}> {{ {body} }}')
     return '\n'.join(out) + '\n', len(blocks)
 
 
@@ -135,38 +136,188 @@ def whole(vec):
     return f'proof {{ assert({vec}@.subrange(0, {vec}@.len() as int) =~= {vec}@); }}'
 
 
+# ---------------------------------------------------------------------------------------------------------------- member / class levels
+# One table per level, written from the property statement ("replay delivers the same events as reading"), the *Interests structs and the
+# JVMS attribute list: for every fact the item holds, under which interest flag it is delivered and as which event.
+#   ('always', event)                                   delivered unconditionally
+#   ('opt', interest, field, event)                     Option field: delivered iff interested and present; {v} = the value
+#   ('sub', interest, vec, visible, Kind, sub_var)      list delivered through a sub-visitor: begin event Kind(visible), then KindItems(list); only if non-empty
+#   ('code',)                                           method level: the Code is offered iff interested and present
+#   ('default',)                                        method level: AnnotationDefault through a sub-visitor
+#   ('members', interest, vec, Type, event_of_x)        class level: each member offered in order iff interested
+#   ('unknown',)                                        unknown attributes that convert, in order, iff interested
+ANN = [('sub', 'runtime_visible_annotations', 'runtime_visible_annotations', 'true', 'Annotations', 'annotations_visitor'),
+       ('sub', 'runtime_invisible_annotations', 'runtime_invisible_annotations', 'false', 'Annotations', 'annotations_visitor'),
+       ('sub', 'runtime_visible_type_annotations', 'runtime_visible_type_annotations', 'true', 'TypeAnnotations', 'type_annotations_visitor'),
+       ('sub', 'runtime_invisible_type_annotations', 'runtime_invisible_type_annotations', 'false', 'TypeAnnotations', 'type_annotations_visitor')]
+LEVELS = dict(
+    field=dict(file=T + 'field.rs', struct='Field', tfile=V + 'field.rs', trait='FieldVisitor', interests='FieldInterests', ev='FEv', var='field_visitor', target='TargetInfoField',
+               variants='DeprecatedSynthetic(bool, bool), ConstantValue(ConstantValue), Signature(FieldSignature)',
+               specs={'visit_deprecated_and_synthetic_attribute': 'DeprecatedSynthetic(deprecated, synthetic)', 'visit_constant_value': 'ConstantValue(constant_value)', 'visit_signature': 'Signature(signature)'},
+               blocks=[('always', 'DeprecatedSynthetic(m.has_deprecated_attribute, m.has_synthetic_attribute)'),
+                       ('opt', 'constant_value', 'constant_value', 'ConstantValue({v})'), ('opt', 'signature', 'signature', 'Signature({v})')] + ANN + [('unknown',)],
+               finish='finish_field', parent_ev='Field(self.access, self.name, self.descriptor)'),
+    method=dict(file=T + 'method.rs', struct='Method', tfile=V + 'method.rs', trait='MethodVisitor', interests='MethodInterests', ev='MEv', var='method_visitor', target='TargetInfoMethod',
+                variants='DeprecatedSynthetic(bool, bool), Code, Exceptions(Seq<ClassName>), Signature(MethodSignature), AnnotationDefault, AnnotationDefaultItems(Seq<ElementValue>), Parameters(Seq<MethodParameter>)',
+                specs={'visit_deprecated_and_synthetic_attribute': 'DeprecatedSynthetic(deprecated, synthetic)', 'visit_exceptions': 'Exceptions(exceptions@)', 'visit_signature': 'Signature(signature)',
+                       'visit_parameters': 'Parameters(method_parameters@)'},
+                blocks=[('always', 'DeprecatedSynthetic(m.has_deprecated_attribute, m.has_synthetic_attribute)'), ('code',),
+                        ('opt', 'exceptions', 'exceptions', 'Exceptions({v}@)'), ('opt', 'signature', 'signature', 'Signature({v})')] + ANN +
+                       [('default',), ('opt', 'method_parameters', 'method_parameters', 'Parameters({v}@)'), ('unknown',)],
+                finish='finish_method', parent_ev='Method(self.access, self.name, self.descriptor)'),
+    component=dict(file=T + 'record.rs', struct='RecordComponent', tfile=V + 'record.rs', trait='RecordComponentVisitor', interests='RecordComponentInterests', ev='REv', var='record_component_visitor',
+                   target='TargetInfoField', variants='Signature(FieldSignature)', specs={'visit_signature': 'Signature(signature)'},
+                   blocks=[('opt', 'signature', 'signature', 'Signature({v})')] + ANN + [('unknown',)],
+                   finish='finish_record_component', parent_ev='RecordComponent(self.name, self.descriptor)'),
+    klass=dict(file=T + 'class.rs', struct='ClassFile', tfile=V + 'class.rs', trait='ClassVisitor', interests='ClassInterests', ev='ClEv', var='class_visitor', target='TargetInfoClass',
+               variants='DeprecatedSynthetic(bool, bool), InnerClasses(Seq<InnerClass>), EnclosingMethod(EnclosingMethod), Signature(ClassSignature), SourceFile(JavaString), SourceDebugExtension(JavaString), '
+                        'Module(Module), ModulePackages(Seq<PackageName>), ModuleMainClass(ClassName), NestHost(ClassName), NestMembers(Seq<ClassName>), PermittedSubclasses(Seq<ClassName>), '
+                        'RecordComponent(RecordName, FieldDescriptor), Field(FieldAccess, FieldName, FieldDescriptor), Method(MethodAccess, MethodName, MethodDescriptor)',
+               specs={'visit_deprecated_and_synthetic_attribute': 'DeprecatedSynthetic(deprecated, synthetic)', 'visit_inner_classes': 'InnerClasses(inner_classes@)',
+                      'visit_enclosing_method': 'EnclosingMethod(enclosing_method)', 'visit_signature': 'Signature(signature)', 'visit_source_file': 'SourceFile(source_file)',
+                      'visit_source_debug_extension': 'SourceDebugExtension(source_debug_extension)', 'visit_module': 'Module(module)', 'visit_module_packages': 'ModulePackages(module_packages@)',
+                      'visit_module_main_class': 'ModuleMainClass(module_main_class)', 'visit_nest_host_class': 'NestHost(nest_host_class)', 'visit_nest_members': 'NestMembers(nest_members@)',
+                      'visit_permitted_subclasses': 'PermittedSubclasses(permitted_subclasses@)'},
+               blocks=[('always', 'DeprecatedSynthetic(m.has_deprecated_attribute, m.has_synthetic_attribute)'),
+                       ('opt', 'inner_classes', 'inner_classes', 'InnerClasses({v}@)'), ('opt', 'enclosing_method', 'enclosing_method', 'EnclosingMethod({v})'),
+                       ('opt', 'signature', 'signature', 'Signature({v})'), ('opt', 'source_file', 'source_file', 'SourceFile({v})'),
+                       ('opt', 'source_debug_extension', 'source_debug_extension', 'SourceDebugExtension({v})')] + ANN +
+                      [('opt', 'module', 'module', 'Module({v})'), ('opt', 'module_packages', 'module_packages', 'ModulePackages({v}@)'),
+                       ('opt', 'module_main_class', 'module_main_class', 'ModuleMainClass({v})'), ('opt', 'nest_host', 'nest_host_class', 'NestHost({v})'),
+                       ('opt', 'nest_members', 'nest_members', 'NestMembers({v}@)'), ('opt', 'permitted_subclasses', 'permitted_subclasses', 'PermittedSubclasses({v}@)'),
+                       ('members', 'record', 'record_components', 'RecordComponent', 'RecordComponent(x.name, x.descriptor)'), ('unknown',),
+                       ('members', 'fields', 'fields', 'Field', 'Field(x.access, x.name, x.descriptor)'), ('members', 'methods', 'methods', 'Method', 'Method(x.access, x.name, x.descriptor)')],
+               finish='finish_class', parent_ev=None),
+)
+
+
+def level_trait(u, L):
+    E, tgt = L['ev'], L['target']
+    u.raw(f'pub enum {E} {{ {L["variants"]}, Annotations(bool), AnnotationsItems(Seq<Annotation>), TypeAnnotations(bool), TypeAnnotationsItems(Seq<TypeAnnotation<{tgt}>>), Unknown(Attribute) }}\n')
+    u.item(L['tfile'], 'struct', L['interests'], derives=['Copy', 'Clone'])
+    ghost = (f'    // ghost event log: what this visitor has received so far\n    spec fn log(&self) -> Seq<{E}>;\n'
+             f'    spec fn annotations_residual_log(r: Self::AnnotationsResidual) -> Seq<{E}>;\n    spec fn type_annotations_residual_log(r: Self::TypeAnnotationsResidual) -> Seq<{E}>;\n')
+    specs = {m: ('res', [push(f'{E}::{e}')]) for m, e in L['specs'].items()}
+    specs['visit_unknown_attribute'] = ('res', [push(f'{E}::Unknown(unknown_attribute.src())')])
+    specs.update(sub_pair(E, 'Annotations', ('annotations', 'annotations_residual_log', 'annotations_visitor')))
+    specs.update(sub_pair(E, 'TypeAnnotations', ('type_annotations', 'type_annotations_residual_log', 'type_annotations_visitor')))
+    if L['trait'] == 'MethodVisitor':
+        ghost += f'    spec fn annotation_default_residual_log(r: Self::AnnotationDefaultResidual) -> Seq<{E}>;\n'
+        specs.update(sub_pair(E, 'AnnotationDefault', ('annotation_default', 'annotation_default_residual_log', 'element_value_visitor'), flag=False))
+        specs['visit_code'] = ('res', [f'res.is_ok() ==> final(self).log() == old(self).log().push({E}::Code)', 'res matches Ok(Some(cv)) ==> cv.log() == Seq::<CEv>::empty()'])
+        specs['finish_code'] = ('res', ['res.is_ok() ==> final(self).log() == old(self).log()'])
+    if L['trait'] == 'ClassVisitor':
+        for kind, ev in (('record_component', 'RecordComponent(name, descriptor)'), ('field', 'Field(access, name, descriptor)'), ('method', 'Method(access, name, descriptor)')):
+            ghost += f'    spec fn {kind}_residual_log(r: Self::{"".join(w.capitalize() for w in kind.split("_"))}Residual) -> Seq<{E}>;\n'
+            specs[f'visit_{kind}'] = ('res', [f'res matches Ok(ControlFlow::Break(v)) ==> v.log() == self.log().push({E}::{ev})',
+                                              f'res matches Ok(ControlFlow::Continue((r, sub))) ==> Self::{kind}_residual_log(r) == self.log().push({E}::{ev}) && sub.log() == Seq::empty()'])
+            specs[f'finish_{kind}'] = ('res', [f'res matches Ok(s) ==> s.log() == Self::{kind}_residual_log(this)'])
+    spec_trait(u, L['tfile'], L['trait'], ghost, specs)
+
+
+def level_blocks(L, pfx, tr):
+    """-> (spec text, number of stages, loop specs {ordinal: dict}, for-loop rewrites)"""
+    E, var = L['ev'], L['var']
+    G = f'<V: {L["trait"]}>'
+    blocks, loops, rew = [], {}, []
+    pre = [f'pub open spec fn {pfx}_unknown_log<U: UnknownAttributeVisitor>(prev: Seq<{E}>, attrs: Seq<Attribute>, k: int) -> Seq<{E}> decreases k {{\n'
+           f'    if k <= 0 {{ prev }} else {{ let p = {pfx}_unknown_log::<U>(prev, attrs, k - 1); if U::convertible(attrs[k - 1]) {{ p.push({E}::Unknown(attrs[k - 1])) }} else {{ p }} }}\n}}']
+    S = lambda j: f'{pfx}_{j}::<{tr}>(self, interests)'
+    k = 0
+    for j, b in enumerate(L['blocks'], start=1):
+        if b[0] == 'always':
+            blocks.append((None, [f'{E}::{b[1]}']))
+        elif b[0] == 'opt':
+            blocks.append((f'i.{b[1]} && m.{b[2]} is Some', [f'{E}::' + b[3].replace('{v}', f'm.{b[2]}.unwrap()')]))
+        elif b[0] == 'code':
+            blocks.append(('i.code && m.code is Some', [f'{E}::Code']))
+        elif b[0] == 'default':
+            blocks.append(('i.annotation_default && m.annotation_default is Some', [f'{E}::AnnotationDefault', f'{E}::AnnotationDefaultItems(Seq::<ElementValue>::empty().push(m.annotation_default.unwrap()))']))
+        elif b[0] == 'sub':
+            _, flag, vec, vis, kind, sub = b
+            blocks.append((f'i.{flag} && m.{vec}@.len() > 0', [f'{E}::{kind}({vis})', f'{E}::{kind}Items(m.{vec}@)']))
+            resid = 'annotations_residual_log' if kind == 'Annotations' else 'type_annotations_residual_log'
+            loops[k] = dict(invariant=[C(f'C17.{pfx}.inv.{vec}', f'<{tr} as {L["trait"]}>::{resid}(visitor) == {S(j - 1)}.push({E}::{kind}({vis}))'),
+                                       items_inv(f'C17.{pfx}.inv.{vec}.items', f'self.{vec}', sub)], after=whole(f'self.{vec}'))
+            rew.append((rf'for annotation in self\.{vec}\b', f'for annotation in iter: self.{vec}'))
+            k += 1
+        elif b[0] == 'unknown':
+            blocks.append(('raw', f'if i.unknown_attributes {{ {pfx}_unknown_log::<V::UnknownAttribute>({{prev}}, m.attributes@, m.attributes@.len() as int) }} else {{ {{prev}} }}'))
+            loops[k] = dict(invariant=[C(f'C17.{pfx}.inv.unknown-attributes', f'{var}.log() == {pfx}_unknown_log::<<{tr} as {L["trait"]}>::UnknownAttribute>({S(j - 1)}, self.attributes@, iter.index@ as int)')])
+            rew.append((r'for attribute in self\.attributes\b', 'for attribute in iter: self.attributes'))
+            k += 1
+        elif b[0] == 'members':
+            _, flag, vec, ty, ev = b
+            pre.append(f'pub open spec fn {pfx}_{vec}_log(prev: Seq<{E}>, xs: Seq<{ty}>, k: int) -> Seq<{E}> decreases k {{\n'
+                       f'    if k <= 0 {{ prev }} else {{ let x = xs[k - 1]; {pfx}_{vec}_log(prev, xs, k - 1).push({E}::{ev}) }}\n}}')
+            blocks.append(('raw', f'if i.{flag} {{ {pfx}_{vec}_log({{prev}}, m.{vec}@, m.{vec}@.len() as int) }} else {{ {{prev}} }}'))
+            loops[k] = dict(invariant=[C(f'C17.{pfx}.inv.{vec}', f'{var}.log() == {pfx}_{vec}_log({S(j - 1)}, self.{vec}@, iter.index@ as int)')])
+            one = {'record_components': 'record_component', 'fields': 'field', 'methods': 'method'}[vec]
+            rew.append((rf'for {one} in self\.{vec}\b', f'for {one} in iter: self.{vec}'))
+            k += 1
+    txt, n = staged(pfx, G, f'm: {L["struct"]}, i: {L["interests"]}', 'm, i', E, blocks, opaque_stages=True)
+    return '\n'.join(pre) + '\n' + txt, n, loops, rew
+
+
+def level_accept(u, name, L, canary=False):
+    pfx = f'{name}_replay'
+    parent = name != 'klass'
+    tr = {'field': 'C::FieldVisitor', 'method': 'C::MethodVisitor', 'component': 'C::RecordComponentVisitor', 'klass': 'V::ClassVisitor'}[name]
+    txt, n, loops, rew = level_blocks(L, pfx, tr)
+    u.raw(txt)
+    fin = ('ClassVisitor::' if parent else 'MultiClassVisitor::') + L['finish'] + rf'\(visitor, {L["var"]}\)'
+    # checkpoints: before block j+1 starts the log is stage j (keeps every SMT query small; also localises a failure to one block)
+    flag_of = lambda b: {'code': 'code', 'default': 'annotation_default', 'unknown': 'unknown_attributes'}.get(b[0]) or b[1]
+    cps = []
+    nth = -1
+    for j in range(0, n):
+        nb = L['blocks'][j]
+        if nb[0] == 'always':
+            continue
+        nth += 1   # block j+1 is the nth `if interests.<flag>` statement of the function (ordinal anchor: a wrong flag must not lose the anchor)
+        if j == 0:
+            continue
+        cps.append((('before', r'if interests\.\w+', nth), C(f'C17.{name}.after-block-{j}', f'{L["var"]}.log() == {pfx}_{j}::<{tr}>(self, interests)'), '', f'reveal({pfx}_{j});'))
+    u.fn(L['file'], f'{L["struct"]}::accept', ret='res', canary=canary, rewrites=rew, loops=loops,
+         asserts=cps + [(('before', fin), C(f'C17.{name}.replay-delivers-every-fact-the-visitor-is-interested-in', f'{L["var"]}.log() == {pfx}_{n}::<{tr}>(self, interests)'), '', f'reveal({pfx}_{n});')],
+         ensures=([C(f'C17.{name}.offered-to-the-class-visitor-once', f'res matches Ok(v) ==> v.log() == visitor.log().push(ClEv::{L["parent_ev"]})')] if parent else []))
+
+
 def build(u):
     u.preamble('common.rs')
     opaque(u, OPAQUE)
     u.raw(COMMON)
     u.item(T + 'method/code.rs', 'struct', 'Label', derives=['Copy', 'Clone', 'PartialEq', 'Eq'])
     spec_trait(u, V + 'attribute.rs', 'UnknownAttributeVisitor', UA_GHOST, UA_SPECS)
-    build_code(u)
-
-
-def build_code(u):
+    # ---- visitor traits, innermost first
     u.raw(CEV)
     u.item(V + 'method/code.rs', 'struct', 'CodeInterests', derives=[])
     spec_trait(u, V + 'method/code.rs', 'CodeVisitor', CODE_GHOST, CODE_SPECS)
+    for lv in ('method', 'field', 'component', 'klass'):
+        level_trait(u, LEVELS[lv])
+    spec_trait(u, V + 'mod.rs', 'MultiClassVisitor', '', {
+        'visit_class': ('res', ['res matches Ok(ControlFlow::Continue((r, sub))) ==> sub.log() == Seq::<ClEv>::empty()'])})
+    # ---- tree structs
     u.item(T + 'method/code.rs', 'struct', 'InstructionListEntry', derives=[])
     u.item(T + 'method/code.rs', 'struct', 'Code', derives=[])
+    u.item(T + 'method.rs', 'struct', 'Method', derives=[])
+    u.item(T + 'field.rs', 'struct', 'Field', derives=[])
+    u.item(T + 'record.rs', 'struct', 'RecordComponent', derives=[])
+    u.item(T + 'class.rs', 'struct', 'ClassFile', derives=[])
+    build_code(u)
+    level_accept(u, 'method', LEVELS['method'])
+    level_accept(u, 'field', LEVELS['field'])
+    level_accept(u, 'component', LEVELS['component'])
+    level_accept(u, 'klass', LEVELS['klass'])
+    build_reader_tail(u)
+
+
+def build_code(u):
     u.raw(CODE_SPEC)
     txt, n = staged('code_replay', '<CV: CodeVisitor>', 'c: Code, i: CodeInterests', 'c, i', 'CEv', CODE_BLOCKS)
     u.raw(txt)
-    # a minimal MethodVisitor for Code::accept is part of the method level (build_method); here only what Code::accept uses
-    u.raw('''
-pub enum MEvCodeOnly { Code }
-pub trait MethodVisitor: Sized {
-    type CodeVisitor: CodeVisitor;
-    spec fn log(&self) -> Seq<MEvCodeOnly>;
-    fn visit_code(&mut self) -> (res: Result<Option<Self::CodeVisitor>, VErr>)
-        ensures res.is_ok() ==> final(self).log() == old(self).log().push(MEvCodeOnly::Code), res matches Ok(Some(cv)) ==> cv.log() == Seq::<CEv>::empty();
-    fn finish_code(&mut self, code_visitor: Self::CodeVisitor) -> (res: Result<(), VErr>)
-        ensures res.is_ok() ==> final(self).log() == old(self).log();
-}
-''')
     S = lambda j: f'code_replay_{j}::<M::CodeVisitor>(self, interests)'
-    TA = 'M::CodeVisitor::ta_residual_log(visitor)'
+    TA = '<M::CodeVisitor as CodeVisitor>::ta_residual_log(visitor)'
     u.fn(T + 'method/code.rs', 'Code::accept', ret='res', canary=True,
          rewrites=[(r'for instruction in self\.instructions', 'for instruction in iter: self.instructions'),
                    (r'for annotation in self\.runtime_visible_type_annotations', 'for annotation in iter: self.runtime_visible_type_annotations'),
@@ -182,8 +333,7 @@ pub trait MethodVisitor: Sized {
                 3: dict(invariant=[C('C17.code.inv.unknown-attributes', f'code_visitor.log() == code_unknown_log::<<M::CodeVisitor as CodeVisitor>::UnknownAttribute>({S(8)}, self.attributes@, iter.index@ as int)')])},
          asserts=[(('before', r'visitor\.finish_code\(code_visitor\)'),
                    C('C17.code.replay-delivers-every-fact-the-visitor-is-interested-in', f'code_visitor.log() == {S(9)}'))],
-         ensures=[C('C17.code.offered-to-the-method-visitor-once', 'res matches Ok(v) ==> v.log() == visitor.log().push(MEvCodeOnly::Code)')])
-    build_reader_tail(u)
+         ensures=[C('C17.code.offered-to-the-method-visitor-once', 'res matches Ok(v) ==> v.log() == visitor.log().push(MEv::Code)')])
 
 
 def build_reader_tail(u):
